@@ -44,6 +44,7 @@ class Module:
         self.functions = {}   # name -> FunctionDef (module level, last def wins)
         self.classes = {}     # name -> ClassInfo
         self.assigns = {}     # module-level name -> list of value nodes (in order)
+        self.updates = {}     # module-level name -> dict literals merged by NAME.update({...})
         for n in ast.walk(self.tree):
             for ch in ast.iter_child_nodes(n):
                 ch._parent = n
@@ -167,6 +168,11 @@ class Repo:
             for t in st.targets:
                 if isinstance(t, ast.Name):
                     m.assigns.setdefault(t.id, []).append(st.value)
+        elif isinstance(st, ast.Expr) and isinstance(st.value, ast.Call) \
+                and isinstance(st.value.func, ast.Attribute) and st.value.func.attr == 'update' \
+                and isinstance(st.value.func.value, ast.Name) and len(st.value.args) == 1 \
+                and isinstance(st.value.args[0], ast.Dict):
+            m.updates.setdefault(st.value.func.value.id, []).append(st.value.args[0])
         elif isinstance(st, ast.AnnAssign) and isinstance(st.target, ast.Name) \
                 and st.value is not None:
             m.assigns.setdefault(st.target.id, []).append(st.value)
